@@ -313,14 +313,45 @@ func runType(c *fw.Ctx, idx int, tc tcase, bound int) {
 		cleanDatums = append(cleanDatums, ds...)
 	}
 
+	// the same records as a conformant writer may also serialise them: every array and map one item per block,
+	// byte-size prefix on every second block (slices and maps then GROW while they already hold items)
+	var splitBlocks []ref.Block
+	{
+		k := 0
+		pol := func(label string, n int) int {
+			switch label {
+			case "blocksize":
+				return n - 1
+			case "sizeprefix":
+				k++
+				return k % 2
+			}
+			return 0
+		}
+		di := 0
+		for _, b := range cp.Blocks {
+			var payload []byte
+			for i := int64(0); i < b.Count; i++ {
+				payload = (&ref.Enc{Policy: pol}).Encode(payload, rs, cleanDatums[di])
+				di++
+			}
+			splitBlocks = append(splitBlocks, ref.Block{Count: b.Count, Payload: payload})
+		}
+	}
+	splitFile, _ := ref.WriteFile(ref.StdMeta(string(cp.Meta["avro.schema"]), "null", true), "null", [16]byte{0xc, 1, 1}, splitBlocks)
+
 	// ---- decode direction: GC placements during ReadFile
 	// variants: (0) the application keeps the banks; (1) it keeps the records but drops the banks without
 	// closing them; (2) a previous read whose banks were closed (and one collection) precedes the read, so
 	// banks come recycled from the pool
 	var execs int64
 	var stD gcStats
-	for variant := 0; variant < 3; variant++ {
+	for variant := 0; variant < 4; variant++ {
 	variant := variant
+	file := cleanFile
+	if variant == 3 {
+		file = splitFile // (3) banks kept, collections written one item per block
+	}
 	// quick: statement-level points (first occurrence of each) in the main variant, codec-boundary points
 	// in the other two; thorough: the first two occurrences everywhere
 	switch {
@@ -333,7 +364,7 @@ func runType(c *fw.Ctx, idx int, tc tcase, bound int) {
 	}
 	stV := gcExplore(bound, 3000, func(ch *placer) {
 		execs++
-		desc := fmt.Sprintf("decode %s (variant %s) with collections at %s", tc.name, [...]string{"banks kept", "banks dropped unclosed", "banks recycled from the pool"}[variant], ch.Desc())
+		desc := fmt.Sprintf("decode %s (variant %s) with collections at %s", tc.name, [...]string{"banks kept", "banks dropped unclosed", "banks recycled from the pool", "banks kept, arrays and maps written one item per block"}[variant], ch.Desc())
 		if variant == 2 {
 			hook = nil
 			avro.ReadFile(&filedrv.Reader{Data: cleanFile}, reflect.New(outer).Elem().Interface(), func(val unsafe.Pointer, rb *avro.ResourceBank) error {
@@ -354,7 +385,7 @@ func runType(c *fw.Ctx, idx int, tc tcase, bound int) {
 		var banks []*avro.ResourceBank
 		var rerr error
 		pan, site := run(func() {
-			rerr = avro.ReadFile(&filedrv.Reader{Data: cleanFile, Mode: int(execs) % filedrv.NumModes}, reflect.New(outer).Elem().Interface(), func(val unsafe.Pointer, rb *avro.ResourceBank) error {
+			rerr = avro.ReadFile(&filedrv.Reader{Data: file, Mode: int(execs) % filedrv.NumModes}, reflect.New(outer).Elem().Interface(), func(val unsafe.Pointer, rb *avro.ResourceBank) error {
 				hook("callback")
 				sh := reflect.New(outer).Elem()
 				sh.Set(reflect.NewAt(outer, val).Elem()) // what an application retains: a shallow copy
@@ -617,7 +648,7 @@ func init() {
 			if tier == "thorough" {
 				b = 2
 			}
-			return fmt.Sprintf("workers run with GOGC=off GODEBUG=clobberfree=1,invalidptr=1, so the only collections are the ones the explorer injects and a freed object is overwritten at once; the library is rebuilt with a generated overlay that calls a hook before every statement of every function, and an instrumented leaf type GCProbe (registered custom codec) adds points inside every Read (before/middle/after), New, Omit and Write, plus callback entry and before/after each Encode: every one of these is a choice point (statement points on the decode/encode path: codecs, banks, buffers, the record loop of ReadFile, Encoder; quick tier: the first dynamic occurrence of each static point in the main variant and in encoding, codec-boundary points only in the two bank-lifetime variants; thorough: the first two occurrences in all variants); the type universe puts probes inside and after every composite: all type expressions of depth<=2 (3 for maps and pointers in thorough) over leaves {GCProbe,string,[]byte,int64,*int64,*GCProbe,time.Time,null.String} and wrappers {*τ,[]τ,map[string]τ,struct{X τ;P GCProbe}}, each as struct{F τ; Tail GCProbe; G τ omitempty}; the decode direction runs in three variants (banks kept by the application; records kept but banks dropped unclosed; banks recycled from the pool after an earlier read whose banks were closed, one collection in between); for every type and variant ALL placements of at most %d injected collection(s) (each = 2×runtime.GC + allocation of garbage in 16 size classes) during ReadFile and during encoding are enumerated, and one collection is always run after decoding and again after the first comparison; oracle: every retained (shallow-copied) record equals the value written after the last collection, encoded data equals the collection-free run as a datum, the worker does not die; distinct_nontrivial = (type, placement) executions", b)
+			return fmt.Sprintf("workers run with GOGC=off GODEBUG=clobberfree=1,invalidptr=1, so the only collections are the ones the explorer injects and a freed object is overwritten at once; the library is rebuilt with a generated overlay that calls a hook before every statement of every function, and an instrumented leaf type GCProbe (registered custom codec) adds points inside every Read (before/middle/after), New, Omit and Write, plus callback entry and before/after each Encode: every one of these is a choice point (statement points on the decode/encode path: codecs, banks, buffers, the record loop of ReadFile, Encoder; quick tier: the first dynamic occurrence of each static point in the main variant and in encoding, codec-boundary points only in the other variants; thorough: the first two occurrences in all variants); the type universe puts probes inside and after every composite: all type expressions of depth<=2 (3 for maps and pointers in thorough) over leaves {GCProbe,string,[]byte,int64,*int64,*GCProbe,time.Time,null.String} and wrappers {*τ,[]τ,map[string]τ,struct{X τ;P GCProbe}}, each as struct{F τ; Tail GCProbe; G τ omitempty}; the decode direction runs in four variants (banks kept by the application; records kept but banks dropped unclosed; banks recycled from the pool after an earlier read whose banks were closed, one collection in between; banks kept and the file rewritten by the reference writer with every array and map one item per block, every second block size-prefixed, so that slices and maps grow while holding items); for every type and variant ALL placements of at most %d injected collection(s) (each = 2×runtime.GC + allocation of garbage in 16 size classes) during ReadFile and during encoding are enumerated, and one collection is always run after decoding and again after the first comparison; oracle: every retained (shallow-copied) record equals the value written after the last collection, encoded data equals the collection-free run as a datum, the worker does not die; distinct_nontrivial = (type, placement) executions", b)
 		},
 		Assumptions: []string{
 			"collections land at interception points: in the overlay build (the registered command) that is before EVERY statement of every library function (generated zzvs.StmtPoint hooks), plus inside the probe codec and at callback entry; a collection between two machine instructions of one statement (e.g. inside a single expression that converts a uintptr back to a pointer) is not placed",
